@@ -377,7 +377,9 @@ func (r *RowCache) Update(uuid string, m model.Model, checkIndexes bool) (model.
 			}
 		}
 		for k, v := range removeIndexes[index] {
-			if indexSpec.isSchemaIndex() || substractUUIDSet(r.indexes[index][k], v).empty() {
+			// only remove the index if it is pointing to this uuid, another
+			// row of the same batch might have taken over the value already
+			if substractUUIDSet(r.indexes[index][k], v).empty() {
 				delete(r.indexes[index], k)
 			}
 		}
